@@ -14,6 +14,9 @@ import RedisVerif.Model.AntiEntropy
     CMP <x> <y>                                        differs_from, divergent_buckets  → differs=<0|1> div=<list>
     G <a|b> <limit> <nb> <bucket>*nb                   get_keys_in_buckets              → g <keyhex>*
     SYNC <limit>                                       run_anti_entropy_sync(a, b)      → a <n> (<keyhex> <rv>)* | b <n> …
+    PULL <a|b> <full 0|1> <limit>                      message protocol, requester = slot: process_peer_digest,
+                                                       create_sync_request, handle_sync_request, merge
+                                                                                        → differs=… div=… resp=<keyhex>,… | <slot> <n> (<keyhex> <rv>)*
 
   A hash the tables do not contain evaluates to 2^64 (not a u64), which surfaces as a
   disagreement; `conflicts` counts table entries that would make a hash a non-function of what
@@ -127,6 +130,17 @@ def cmd (st : St) : P (St × String) := do
     let st' := { st with a := { st.a with state := a', order := NMap.keys a' },
                          b := { st.b with state := b', order := NMap.keys b' } }
     pure (st', showState "a" a' ++ " | " ++ showState "b" b')
+  | "PULL" => do
+    let isA ← slotTok
+    let full ← nat
+    let limit ← nat
+    let rq := st.slot isA
+    let pr := st.slot (!isA)
+    let (d, div, resp, r') := pull st.hasher rq.depth limit (full != 0) rq.order pr.order rq.state pr.state
+    let slot' : Slot := { rq with state := r', order := NMap.keys r' }
+    let st' := if isA then { st with a := slot' } else { st with b := slot' }
+    pure (st', s!"differs={if d then 1 else 0} div=" ++ ",".intercalate (div.map toString)
+      ++ " resp=" ++ ",".intercalate (resp.map (fun p => showKey p.1)) ++ " | " ++ showState (if isA then "a" else "b") r')
   | _ => failure
 
 def step (st : St) (line : String) : St × String :=
